@@ -175,7 +175,9 @@ func C07CliSort3(name, a, b, c string) {
 	out := string(w.b)
 	vv.Assert(code == 0, "C07: CLI sort of valid versions fails")
 	vv.Assert(oneLine(out), "C07: CLI sort does not write exactly one line")
-	// multiset and order are asserted on the library side (C07Sort3) and equality of the two by C15Sort3
+	// the output is exactly the input strings (quoted) as a multiset, in some order
+	vv.Assert(isPermOutput(out, strconv.Quote(a), strconv.Quote(b), strconv.Quote(c)), "C07: CLI sort output is not the input strings as a multiset")
+	// order is asserted on the library side (C07Sort3) and equality of the two by C15Sort3
 }
 
 // C07CliSortBad: an invalid input is reported by name and no partial result is printed.
@@ -189,6 +191,12 @@ func C07CliSortBad(name, a, bad, c string) {
 	vv.Assert(code == 1, "C07: CLI sort with an invalid version does not exit with status 1")
 	vv.Assert(containsStr(out, bad), "C07: CLI sort error does not name the invalid version")
 	vv.Assert(!containsStr(out, strconv.Quote(a)), "C07: CLI sort prints a partial result next to the error")
+}
+
+func isPermOutput(out, qa, qb, qc string) bool {
+	return out == qa+" "+qb+" "+qc+"\n" || out == qa+" "+qc+" "+qb+"\n" ||
+		out == qb+" "+qa+" "+qc+"\n" || out == qb+" "+qc+" "+qa+"\n" ||
+		out == qc+" "+qa+" "+qb+"\n" || out == qc+" "+qb+" "+qa+"\n"
 }
 
 func containsStr(s, sub string) bool {
